@@ -1,26 +1,40 @@
 (* Spec/Order.v — the one total preorder on scalar values that property C15
    talks about.  Hand-written, meant to be read in a minute.
 
-     null  <  booleans (false < true)  <  numbers (by numeric value, exact
-     rationals)  <  strings (bytewise = code-point order on valid UTF-8)
+     null  <  booleans (false < true)  <  numbers (by numeric value: exact
+     rationals, with -infinity below and +infinity above all of them)
+           <  strings (bytewise = code-point order on valid UTF-8)
 
    The property text fixes "null first, then booleans, then other scalars;
    numbers by numeric value whatever their spelling, strings by code point".
    Where numbers stand relative to strings is not fixed by the text; the spec
-   takes numbers first (the jq order).  Every theorem that compares yq with
-   this spec excludes sequences mixing numbers with strings, so the choice is
-   immaterial for what is proved (and yq has no consistent answer there: see
-   C15_num_str_cycle_refuted).
+   takes numbers first (the jq order), which is also what yq's sort does
+   (since the fix "numbers before strings"; before it yq compared the texts,
+   which is cyclic).
 
    Sequences of keys (sort_by with several key results) are ordered
    lexicographically, a proper prefix first: [lex_cmp]. *)
 From Coq Require Import List ZArith QArith NArith.
 Import ListNotations.
 
+(* numbers: a rational or one of the two infinities (NaN is not a value of the order) *)
+Inductive xnum := XNegInf | XFin (q : Q) | XPosInf.
+
+Definition xnum_cmp (x y : xnum) : comparison :=
+  match x, y with
+  | XNegInf, XNegInf => Eq
+  | XNegInf, _ => Lt
+  | _, XNegInf => Gt
+  | XPosInf, XPosInf => Eq
+  | XPosInf, _ => Gt
+  | _, XPosInf => Lt
+  | XFin p, XFin q => Qcompare p q
+  end.
+
 Inductive value :=
 | VNull
 | VBool (b : bool)
-| VNum (q : Q)
+| VNum (x : xnum)
 | VStr (s : list N).
 
 (* generic lexicographic comparison, a proper prefix is smaller *)
@@ -47,7 +61,7 @@ Definition ord_cmp (x y : value) : comparison :=
   | VBool a, VBool b => bool_cmp a b
   | VBool _, _ => Lt
   | _, VBool _ => Gt
-  | VNum p, VNum q => Qcompare p q
+  | VNum p, VNum q => xnum_cmp p q
   | VNum _, _ => Lt
   | _, VNum _ => Gt
   | VStr s, VStr t => lex_cmp N.compare s t
